@@ -3,8 +3,8 @@ from ..prov import Prov, norm, strip, same, last, fn_is, const_int
 from ..builder import Canon, branch_sequences, preimage
 from .. import frame as FR, rules_g as G, paramalg as pa, rules_k as K
 
-R_EXPR = 'fn_add(INT($digest), INT(X(g_mul(rand#1))))'
-R_ALT = 'fn_add(INT(X(g_mul(rand#1))), INT($digest))'
+R_EXPR = 'fn_add(INT($digest), plain(affx(g_mul(rand#1))))'
+R_ALT = 'fn_add(plain(affx(g_mul(rand#1))), INT($digest))'
 ZA_SEQ = ['to_be_bytes:u16((MulWithOverflow(len($id), 8).0 as u16))', 'LOOP(byte:each(bytes($id)))', 'BE(plain(SM2_MODP_MONT_A))', 'BE(plain(SM2_MODP_MONT_B))',
           'BE(SM2_G_X)', 'BE(SM2_G_Y)', 'X($pk)', 'Y($pk)']
 # accepted idioms for "the ID bytes": a byte loop, or one extend of the bytes
